@@ -225,31 +225,21 @@ theorem C06_structured_merge {α} (isPoint : Bool) (d : List (List Nat))
   locations).  Proved below: the per-axis core.
 -/
 
-/-- **C06 (decomposition, one axis).**  An axis cut into pieces of `ns` cells (all positive), grid
-    starting at lattice index `o`; `bs` = the positions along this axis of the listed pieces, in ANY
-    order and with ANY repetitions (pieces of a 2-d / 3-d decomposition repeat every position), every
-    position occurring.  Then `np.unique` of the pieces' begins / ends are the begins / ends of
-    positions `0, 1, …` in order, their differences `sizes_along_axis` are exactly `ns`, and
-    `unique_extents_begin.index(begin)` of a piece is its true position. -/
-theorem C06_decomposition_axis_partial (o : Int) (ns : List Nat) (hpos : ∀ n ∈ ns, 0 < n)
+/-- **C06 (decomposition, one axis).**  An axis cut into pieces of `ns` cells (all positive — or a
+    flat direction, which has a single piece without cells), grid starting at lattice index `o`;
+    `bs` = the positions along this axis of the listed pieces, in ANY order and with ANY repetitions
+    (pieces of a 2-d / 3-d decomposition repeat every position), every position occurring.  Then
+    `np.unique` of the pieces' begins / ends are the begins / ends of positions `0, 1, …` in order,
+    their differences `sizes_along_axis` are exactly `ns`, and `unique_extents_begin.index(begin)` of
+    a piece is its true position.  (The three-axis assembly is `C06_decomposition`.) -/
+theorem C06_decomposition_axis (o : Int) (ns : List Nat) (hpos : ns.length ≤ 1 ∨ ∀ n ∈ ns, 0 < n)
     (bs : List Nat) (hbs : ∀ b, b ∈ bs ↔ b < ns.length) :
     List.zipWith (fun e b => e - b) (uniqueSorted (bs.map (axisEnd o ns)))
         (uniqueSorted (bs.map (axisBegin o ns))) = ns.map Int.ofNat ∧
     ∀ b, b < ns.length → (uniqueSorted (bs.map (axisBegin o ns))).idxOf (axisBegin o ns b) = b := by
   obtain ⟨hb, he⟩ := axis_recovery o ns hpos bs hbs
   rw [hb, he]
-  constructor
-  · rw [zipWith_map_same, ← range_map_getD]
-    apply List.map_congr_left
-    intro b hb'
-    simp only [List.mem_range] at hb'
-    simp only [axisEnd, axisBegin, sumList_take_succ ns b hb']
-    omega
-  · intro b hb'
-    apply idxOf_range_map _ _ _ hb'
-    intro a hab
-    have := sumList_take_strict ns hpos a b hab (by omega)
-    simp only [axisBegin]; omega
+  exact axis_sizes_idx o ns hpos
 
 /-- **C06 (rectilinear ordinates, one axis).**  An axis with ordinates `W` cut into pieces of `ns`
     cells (all positive, at least one piece): piece `b` carries `W[off_b … off_b + ns[b]]`.  Writing the
